@@ -99,7 +99,8 @@ WHITELIST = [
     ("util/geometry.py", "isSegmentIntersects", "isSegmentIntersects", {"segment1": "list[float]", "segment2": "list[float]"}, "bool", {}),
     ("core/obs_time.py", "ObsTime.isLeapYear", "isLeapYear", {"year": "int"}, "bool", {}),
     ("core/spatial_index.py", "SpatialIndex.__getCell", "SpatialIndex_getCell",
-     {"self": {"xmin": "float", "xmax": "float", "ymin": "float", "ymax": "float", "dX": "float", "dY": "float"},
+     {"self": {"xmin": "float", "xmax": "float", "ymin": "float", "ymax": "float", "dX": "float", "dY": "float",
+               "csize": "int", "lsize": "int"},
       "coord": {"getX()": "float", "getY()": "float"}}, "optional[tuple[float,float]]", {}),
     ("core/spatial_index.py", "SpatialIndex.groundDistanceToUnits", "SpatialIndex_groundDistanceToUnits",
      {"self": {"dX": "float", "dY": "float"}, "distance": "float"}, "int", {}),
